@@ -148,6 +148,30 @@ fn main() {
             );
             let flat = nested.flatten();
 
+            // three levels: Merge<Merge<Merge<u8>>>, flattened twice; small arities, with
+            // resolved (arity 1) merges at every level in a third of the cases
+            let n3_pool = rng.below(3);
+            let small = |rng: &mut Rng| -> u64 { if n3_pool == 0 && rng.chance(1, 2) { 1 } else { 1 + rng.geometric(2) } };
+            let outer3 = small(&mut rng);
+            let nested3_terms: Vec<Vec<Vec<u8>>> = (0..2 * outer3 - 1)
+                .map(|_| {
+                    let mid = small(&mut rng);
+                    (0..2 * mid - 1)
+                        .map(|_| {
+                            let inner = small(&mut rng);
+                            (0..2 * inner - 1).map(|_| rng.below(alphabet) as u8).collect()
+                        })
+                        .collect()
+                })
+                .collect();
+            let nested3 = Merge::from_vec(
+                nested3_terms
+                    .iter()
+                    .map(|mm| Merge::from_vec(mm.iter().map(|t| Merge::from_vec(t.clone())).collect::<Vec<_>>()))
+                    .collect::<Vec<_>>(),
+            );
+            let flat3 = nested3.flatten().flatten();
+
             // edit the simplified form at random positions with fresh or existing values
             let mut edit: Vec<u8> = simplified.iter().copied().collect();
             let edits = rng.geometric(4);
@@ -167,6 +191,8 @@ fn main() {
                     coq::list(mapping.iter(), |x| coq::n(*x)),
                     coq::list(nested_terms.iter(), |t| l(t)),
                     l(flat.as_slice()),
+                    coq::list(nested3_terms.iter(), |mm| coq::list(mm.iter(), |t| l(t))),
+                    l(flat3.as_slice()),
                     l(&edit),
                     l(updated.as_slice()),
                 ],
